@@ -1322,3 +1322,25 @@ V("C08", "adv-avail-ge-total", L,
   ("    elif avail > total:", "    elif avail >= total:"), "fires:")
 V("C13", "adv-rss-vms-swapped", L,
   ("            vms, rss, shared, text, lib, data, dirty = (", "            rss, vms, shared, text, lib, data, dirty = ("), "fires:")
+
+# ----------------------------------------------------------------- round-2 misses -> rules
+V("C11", "kind-substring-test", I,
+  ("    kinds = tuple(_common.conn_tmap)", "    kinds = \", \".join(_common.conn_tmap)"), "fires:C11.R2")
+V("C11", "inet-skipped-on-bind-test", L,
+  ("        if file.endswith('6') and not os.path.exists(file):",
+   "        if family == socket.AF_INET6 and not supports_ipv6():"), "fires:C11.R3")
+V("C13", "rollup-reader-translates", L,
+  ("        def _parse_smaps_rollup(self):", "        @wrap_exceptions\n        def _parse_smaps_rollup(self):"),
+  "fires:C13.R2")
+V("C15", "negsignal-not-total", P,
+  ("                return negsig_to_enum(-os.WTERMSIG(status))", "                return Negsignal(-os.WTERMSIG(status))"),
+  "fires:C15.R5")
+V("C18", "eligible-is-current-mask", L,
+  ("                return list(range(len(per_cpu_times())))", "                return self.cpu_affinity_get()"),
+  "fires:C18.R1")
+V("C20", "bsd-pid0-via-pid-exists", "psutil/_psbsd.py",
+  ("            if pid == 0 and 0 in pids():", "            if pid == 0 and pid_exists(pid):"), "fires:C20.R2")
+V("C20", "sunos-cwd-absorbs-denial", "psutil/_pssunos.py",
+  ("            return os.readlink(f\"{procfs_path}/{self.pid}/path/cwd\")\n        except FileNotFoundError:",
+   "            return os.readlink(f\"{procfs_path}/{self.pid}/path/cwd\")\n        except OSError:"),
+  "fires:C20.R2")
